@@ -21,7 +21,7 @@ PROPERTY = "C15"
 RULE = "unit = one system; paths = (in_hull, range_of_solutions, fit) on the base problem and on each of the 64 rescaled twins; non-trivial = twins inside the well-scaled regime (asserted); distinct by (system, s, c, query)"
 ASSUMPTIONS = ["regime (from the property): both twins have gamut extent and |targets| in [1, 100] capture units and bounds in [0.05, 10]",
                "tolerances: membership identical for targets with |margin| >= 1e-6 extent; ranges 1e-7 relative; fits: 2e-2 capture units in each twin's own units (default solver)"]
-BOUNDS = {"quick": "shapes 2x3 3x3 3x2 3x4 x 2 option variants; 8 targets; 64 unit changes", "thorough": "plus 2x4 4x4 4x5, seeded matrices"}
+BOUNDS = {"quick": "shapes 2x3 3x3 3x2 3x4 x 2 option variants; 8 targets; 64 unit changes; queries: membership, ranges, spaced solutions, fit, underdetermined fit", "thorough": "plus 2x4 4x4 4x5, seeded matrices"}
 TECHNIQUE = "every (system, target) pair x the full 8x8 unit-change grid; metamorphic twin relation with exact scale factors"
 LEVEL_TEXT = "every pair is re-expressed in each of 64 unit systems through the public API; gamut membership, solution ranges, uniquely determined fitted intensities, predicted captures and errors of the twin must be the exact rescaling of the base problem's; asserted inside the stated regime, recorded as a deviation histogram outside"
 LEVEL_NOTE = "small scope; equivariance of solver-based answers only to the solver tolerance"
